@@ -369,7 +369,7 @@ pub fn seams(ctx: &Ctx) -> Stats {
 /// between 5e-7 and 1e-6 must round to 0.000001, ties and values just below/above the 6th decimal
 pub fn largefile(ctx: &Ctx) -> Stats {
     let mut st = Stats::new();
-    let n = ctx.pick(2u64, 6u64);
+    let n = ctx.pick(3u64, 12u64);
     for i in 0..n {
         if ctx.expired() {
             st.truncated = true;
@@ -377,10 +377,14 @@ pub fn largefile(ctx: &Ctx) -> Stats {
         }
         let mut rng = Rng::keyed(ctx.seed, "c04.largefile", i);
         let k = rng.usize(2, 4);
-        // poly-A body with a few rare k-mers: counts 1..3 out of 1.2-3.4 million windows
-        let len = rng.usize(1_200_000, 3_400_000);
-        let mut seq = vec![b'A'; len];
+        // poly-A body with a few rare k-mers whose frequency is steered to interesting places around the
+        // 6th decimal: just above the rounding tie at 5e-7, in the middle of [5e-7, 1e-6), just below 1e-6,
+        // around 1.5e-6 (0.000001 vs 0.000002)
         let rare = rng.usize(1, 3);
+        let targets = [5.05e-7f64, 7.0e-7, 9.8e-7, 1.45e-6, 1.55e-6, 4.9e-7];
+        let target = targets[(i as usize + (ctx.seed as usize)) % targets.len()];
+        let len = ((rare as f64 / target).round() as usize).clamp(400_000, 6_500_000);
+        let mut seq = vec![b'A'; len];
         for j in 0..rare {
             let p = rng.usize(k, len - 2 * k - 1) / (rare + 1) * (j + 1);
             seq[p] = b'C';
